@@ -265,7 +265,7 @@ func (h *harness) concurrentRound(rng *lib.RNG, round int) {
 			}
 		}()
 	}
-	done := lib.WithDeadline(120*time.Second, func() {
+	done := lib.WithDeadline(600*time.Second, func() {
 		for _, o := range ops {
 			switch o.Op {
 			case "apply":
@@ -289,7 +289,7 @@ func (h *harness) concurrentRound(rng *lib.RNG, round int) {
 	})
 	stop.Store(true)
 	if !done {
-		violate("concurrent-stage-hangs", "writer/readers did not finish within 120s")
+		violate("concurrent-stage-hangs", "writer/readers did not finish within 600s")
 	}
 	h.res.HitN("concurrent-writer-ops", len(ops))
 	h.res.HitN("concurrent-reader-views", int(views.Load()))
